@@ -5,3 +5,4 @@ cd "$(dirname "$0")"
 export CARGO_NET_OFFLINE=true
 (cd engines/mirfacts && cargo +nightly build --release --offline)
 python3 rules/facts.py K1 K4
+python3 -c "import sys; sys.path.insert(0, '.'); from rules import witness; r = witness.results(); print('witnesses:', len(r['tests']), 'ok' if r['ok'] else 'FAILED')"
